@@ -940,6 +940,13 @@ def install(reg):
             return sym_ok(lambda: like(SymArr(a.shape, lambda *idx: Cx.of(fn0(*idx)).conj() if is_cx(a) else fn0(*idx), a.kind), getattr(a, "as_type", None), ctx))
         if name == "abs":
             return sym_ok(lambda _a=a: m_abs(interp, _a))
+        if name == "angle":
+            return sym_ok(lambda _a=a: m_angle(interp, _a))
+        if name == "max" and not is_cx(a):
+            # the largest element: only "it is some real number" is used (an upper bound of the array is never needed here)
+            return sym_ok(lambda *args, _a=a, **kw: interp.ctx.fresh("arrmax", "real") if not args and not kw else (_ for _ in ()).throw(OutOfSubset("max over an axis")))
+        if name == "grad":
+            return getattr(a, "c16_grad", None)
         if name in ("copy", "clone"):
             def cp(_a=a):
                 r = SymArr(_a.shape, _a.fn, _a.kind)
@@ -1006,7 +1013,39 @@ def install(reg):
             return prev_set(interp, base, key, value)
         return NotImplemented
 
-    reg.setitem_models[SymArr] = arr_setitem
+    def arr_setitem_rows(interp, base, key, value):
+        """x[k] = row (k an integer, row an array of the remaining axes or a scalar): functional update along axis 0"""
+        if not base.pylist and base.ndim >= 2 and not isinstance(key, (tuple, slice, SymArr, list)) and key is not None and key is not Ellipsis:
+            k = lift(base._norm_index(key, base.shape[0]))
+            old_fn = base.fn
+            if isinstance(value, SymArr):
+                if value.ndim > base.ndim - 1:
+                    raise OutOfSubset("row assignment with a value of higher rank")
+                vf, off = value.fn, base.ndim - 1 - value.ndim
+                vshape = value.shape
+
+                def getv(rest):
+                    sub = rest[off:]
+                    sub = [z3.IntVal(0) if V._dim_lit(d) == 1 else x for x, d in zip(sub, vshape)]
+                    return vf(*sub)
+            else:
+                getv = lambda rest: value
+            base.fn = lambda i0, *rest: cite(lift(i0) == k, getv(list(rest)), old_fn(i0, *rest))
+            base.writes += 1
+            if hasattr(base, "c16_cx"):
+                del base.c16_cx
+            return True
+        return arr_setitem(interp, base, key, value)
+
+    reg.setitem_models[SymArr] = arr_setitem_rows
+
+    def arr_setattr(interp, base, name, v):
+        if name == "grad":  # Tensor.grad is a plain attribute slot
+            base.c16_grad = v
+            return None
+        raise OutOfSubset(f"storing attribute {name} on a symbolic array")
+
+    reg.setattr_models[SymArr] = arr_setattr
 
     def arr_div(interp, op, a, b):
         if isinstance(b, SymArr) and getattr(b, "c16_inf_mask", None) is not None:
@@ -1236,6 +1275,40 @@ def install(reg):
     M[torch.sgn] = m_sgn
     M[torch.sign] = m_sgn
     M[np.sign] = m_sgn
+
+    def m_where(interp, c, a=None, b=None):
+        """where(cond, a, b) elementwise (real or complex operands)"""
+        if a is None or not any(isinstance(x, SymArr) for x in (c, a, b)):
+            return NotImplemented
+        r = elementwise(lambda cc, x, y: cite(cc, x, y), c, a, b)
+        r.c16_cx = is_cx(a) or is_cx(b)
+        r.kind = "complex" if r.c16_cx else "real"
+        return like(r, getattr(a, "as_type", None) or getattr(c, "as_type", None), interp.ctx)
+
+    M[np.where] = m_where
+    M[torch.where] = m_where
+
+    def m_real(interp, x):
+        if isinstance(x, SymArr):
+            return arr_attr(interp, x, "real")
+        if isinstance(x, Cx):
+            return x.re
+        if isinstance(x, Sym):
+            return x
+        return NotImplemented
+
+    M[torch.real] = m_real
+    M[np.real] = m_real
+
+    def m_zeros_like(interp, x, **kw):
+        if isinstance(x, SymArr):
+            cx = is_cx(x)
+            r = SymArr(x.shape, (lambda *i: Cx(0, 0)) if cx else (lambda *i: 0.0), "complex" if cx else "real")
+            r.c16_cx = cx
+            return like(r, torch.Tensor, interp.ctx)
+        return NotImplemented
+
+    M[torch.zeros_like] = m_zeros_like
 
     def m_complex(interp, re, im):
         if isinstance(re, SymArr) or isinstance(im, SymArr):
